@@ -6,6 +6,7 @@
    limit  : N | I:<k>                  (only df_reindex has one)
    join   : <how> | (X T:<t>*) | (XS T:<t>*) | (XD T:<t>*)   explicit index given as pd.Index / as a Series / as dict(index=..)
    ops    : (align sync <tree> <join> <method> <colhow>)  (align reindex <tree> <join>|(N I:<n>) <method> [<limit>])
+            (align presyncw (T <tree> <tree>) I:<k> <ij|oj|lj|rj> <word|attr|default> <method>)   presync(lambda <names k>: ..)(a, b) with the policy as a WORD / attribute;
             (align presyncn (T <tree>*) (D (<hexkey> <tree>)*) <hexname> <method>)   presync(f)(*args, join=<name of a parameter of f>, **kwargs);
                                                                                       the positional arguments bind to p0, p1, ...
             (align index <tree> <how>)                    (align presync <tree> <how> <method>)
@@ -153,6 +154,12 @@ def handle1 (op : String) (args : List Sexp) : Option String := do
           pure (replyPair r)
       | _, _ => Option.none
   | "presync", [t, how, m] =>
+      let t ← treeOf t; let how ← howOf how; let ms ← methodsOfA m
+      pure (replyTree (reindexTreeM (dfIndex how t.flatTop) ms.1 ms.2 Option.none t))
+  -- the same call through a function whose PARAMETERS are named like policy words (`left`, `right`, `inner`, `outer`), the
+  -- policy given as the word (`join='left'`), through the attribute (`.lj`) or left at its default: the statement knows the
+  -- policy only ("first ... of the input indices for ... left ... joins"), the names of the parameters do not matter
+  | "presyncw", [t, _, how, _, m] =>
       let t ← treeOf t; let how ← howOf how; let ms ← methodsOfA m
       pure (replyTree (reindexTreeM (dfIndex how t.flatTop) ms.1 ms.2 Option.none t))
   | "reindex", [t, ix, m] => reindexOp t ix m (.atom "N")
